@@ -715,3 +715,113 @@ def gen_builtins(quick, seed):
         n += 1
         out.append(ps("bi:%d" % n, t, pt=STD_PT, tag="builtin sequences"))
     return out
+
+
+# ------------------------------------------------------------------------------------------------
+# C12 extraction builtins
+
+def _catalogs():
+    import os
+    return json.load(open(os.path.join(os.path.dirname(os.path.dirname(os.path.abspath(__file__))), "spec", "catalogs.json")))
+
+
+def _q(s):
+    return json.dumps(s)
+
+
+SCOPE_D = 'add_pattern("my", "\\\\d+")'
+SCOPE_G = 'ok = grok(k, "%{my:num:int}")\nprobe(ok, num)'
+SCOPE_TEMPLATES = [
+    "@D@\n@G@", "@G@\n@D@", "if true {\n@D@\n@G@\n}", "if true {\n@D@\n}\n@G@", "@D@\nif true {\n@G@\n}", "if true {\n@D@\n} else {\n@G@\n}", "if false {\n} elif true {\n@D@\n@G@\n}",
+    "for i = 0; i < 1; i = i + 1 {\n@D@\n@G@\n}", "for v in [1] {\n@D@\n}\n@G@", "@D@\nfor v in [1] {\nif v {\n@G@\n}\n}", "if true {\nif true {\n@D@\n}\n@G@\n}",
+    "for v in [1, 2] {\n@G@\n@D@\n}", "for i = 0; i < 2; i = i + 1 {\nif i == 1 {\n@G@\n}\n@D@\n}", "if true {\n@D@\nif true {\nif true {\n@G@\n}\n}\n}",
+    "@D@\n@D@\n@G@", 'add_pattern("my", "[a-c]+")\nif true {\n@D@\n@G@\n}\n@G@', '@D@\nif true {\nadd_pattern("my", "[a-c]+")\n}\n@G@',
+    'add_pattern("WORD", "\\\\d+")\nok = grok(k, "%{WORD:w:str}")\nprobe(ok, w)', 'if true {\nadd_pattern("WORD", "\\\\d+")\n}\nok = grok(k, "%{WORD:w:str}")\nprobe(ok, w)',
+    '@D@\nadd_pattern("pair", "%{my}-%{my}")\nok = grok(k2, "%{pair:p}")\nprobe(ok, p)', 'add_pattern("pair", "%{my}-%{my}")\n@D@\nok = grok(k2, "%{pair:p}")',
+    'ok = grok(k, "%{NOSUCHPATTERN:x}")', 'add_pattern("a", "%{NOSUCHPATTERN}")', '@D@\nok = grok(k, "%{my:num:int} %{other:o}")',
+    'if true {\n@D@\n}\nif true {\n@G@\n}', 'for v in [1] {\n@D@\n}\nfor v in [1] {\n@G@\n}',
+]
+
+
+def gen_scope(quick, seed):
+    """Programs for the load-time check of pattern scoping (accepted and rejected)."""
+    out = []
+    for i, t in enumerate(SCOPE_TEMPLATES):
+        text = t.replace("@D@", SCOPE_D).replace("@G@", SCOPE_G)
+        p = ps("scope:%d" % i, text, pt={"meas": "m", "tags": {}, "fields": {"k": "abc 123", "k2": "x 12-34 y"}}, tag="add_pattern scoping")
+        p["without"] = []
+        out.append(p)
+    return out
+
+
+def gen_extract(quick, seed):
+    rng = random.Random(seed)
+    cat = _catalogs()
+    out = []
+    n = 0
+
+    def add(text, pt, tag):
+        nonlocal n
+        n += 1
+        out.append(ps("ex:%d" % n, text, pt=pt, tag=tag))
+
+    base_tags = {"tg": "tv"}
+    # grok: every catalog entry x subject situation
+    for g in cat["grok"]:
+        pre = [("add_pattern(%s, %s)" % (_q(nm), _q(pp))) for nm, pp in reversed(g["env"])]
+        call = "ok = grok(k, %s%s)" % (_q(g["p"]), "" if g["trim"] else ", false")
+        names = [c[0] for c in g["caps"]] or ["w", "n"]
+        probe = "probe(ok, %s)" % ", ".join(names)
+        for sit in ["field", "tag", "var", "var+field"]:
+            pt = {"meas": "m", "tags": dict(base_tags), "fields": {"fi": 7, "w": "oldw"}}
+            lines = list(pre)
+            if "field" in sit:
+                pt["fields"]["k"] = g["s"] if sit == "field" else "other"
+            if sit == "tag":
+                pt["tags"]["k"] = g["s"]
+            if "var" in sit:
+                lines.append("k = %s" % _q(g["s"]))
+            add("\n".join(lines + [call, probe]), pt, "grok: subject as %s" % sit)
+        # captures land on existing keys of the other kind / are returned through an if
+        pt = {"meas": "m", "tags": {"w": "tagw", "n": "tagn"}, "fields": {"k": g["s"], "d": 1.5}}
+        add("\n".join(pre + ["if %s {\nprobe(1)\n} else {\nprobe(2)\n}" % call[5:], probe]), pt, "grok as a condition; captures onto existing tags")
+    for subj, tag in [("7", "int subject"), ("true", "bool subject"), (None, "absent subject")]:
+        pt = {"meas": "m", "tags": {}, "fields": {"fi": 7}}
+        if subj == "7":
+            pt["fields"]["k"] = 7
+        elif subj == "true":
+            pt["fields"]["k"] = True
+        add('ok = grok(k, "%{WORD:w:str}")\nprobe(ok, w)', pt, "grok: " + tag)
+        add('ok = grok(k, "%{WORD:w} %{NUMBER:n:int}")\nprobe(ok, w, n)', pt, "grok: " + tag)
+    # default_time
+    for t in cat["time"]:
+        call = "default_time(ts%s)" % ((", " + _q(t["tz"])) if t["tz"] else "")
+        for sit in ["field", "tag", "var"]:
+            pt = {"meas": "m", "tags": dict(base_tags), "fields": {"fi": 7}}
+            lines = []
+            if sit == "field":
+                pt["fields"]["ts"] = t["s"]
+            elif sit == "tag":
+                pt["tags"]["ts"] = t["s"]
+            else:
+                lines.append("ts = %s" % _q(t["s"]))
+            add("\n".join(lines + [call, "probe(ts)"]), pt, "default_time (%s subject)" % sit)
+    add("default_time(nosuch)\nprobe(1)", {"meas": "m", "tags": {}, "fields": {"fi": 7}}, "default_time: absent subject")
+    add('default_time(fi)\nprobe(fi)', {"meas": "m", "tags": {}, "fields": {"fi": 7}}, "default_time: non-string subject")
+    # datetime, xml, sql_cover
+    for d in cat["datetime"]:
+        pt = {"meas": "m", "tags": dict(base_tags), "fields": {"v": int(d["v"]), "fi": 7}}
+        add("datetime(v, %s, %s)\nprobe(v)" % (_q(d["prec"]), _q(d["fmt"])), pt, "datetime")
+        add("v = %s\ndatetime(v, %s, %s)\nprobe(v)" % (d["v"], _q(d["prec"]), _q(d["fmt"])), {"meas": "m", "tags": {}, "fields": {"fi": 7}}, "datetime on a variable")
+    add('datetime(nosuch, "s", "RFC3339")\nprobe(1)', {"meas": "m", "tags": {}, "fields": {}}, "datetime: absent subject")
+    for x in cat["xml"]:
+        pt = {"meas": "m", "tags": dict(base_tags), "fields": {"doc": x["doc"] if x["doc"] != "7" else 7, "fi": 7}}
+        add("xml(doc, %s, out)\nprobe(out)" % _q(x["xp"]), pt, "xml")
+        add("xml(doc, %s, \"out.f\")\nxml(doc, %s, fi)\nprobe(fi)" % (_q(x["xp"]), _q(x["xp"])), pt, "xml: destination spellings")
+    add('xml(nosuch, "/a", out)\nprobe(out)', {"meas": "m", "tags": {}, "fields": {}}, "xml: absent subject")
+    for q in cat["sql"]:
+        pt = {"meas": "m", "tags": dict(base_tags), "fields": {"q": q["q"] if q["q"] != "7" else 7, "fi": 7}}
+        add("sql_cover(q)\nprobe(q)", pt, "sql_cover")
+        add("q = %s\nsql_cover(q)\nprobe(q, get_key(q))" % _q(q["q"]), {"meas": "m", "tags": {}, "fields": {"fi": 7}}, "sql_cover on a variable")
+    add("sql_cover(nosuch)\nprobe(1)", {"meas": "m", "tags": {}, "fields": {}}, "sql_cover: absent subject")
+    return out
